@@ -315,23 +315,47 @@ KEYS = [("X", ()), ("X", ("P",)), ("X", ("P", "Q")), ("X", ("Q", "P")), ("P", ("
 
 
 def _cache(st, g, only=None):
+    if only is not None and only and only[0] == "score":
+        only = None  # network-score histories are re-run as a whole
     import pandas as pd
 
-    from pgmpy.estimators import K2Score
+    from pgmpy.base import DAG
+    from pgmpy.estimators import BDsScore
     from pgmpy.estimators.ScoreCache import ScoreCache
 
     rows = list(product(range(3), range(2), range(2)))
     df = pd.DataFrame([rows[i] for i in (0, 3, 5, 5, 7, 10, 11, 2)], columns=COLS)
 
-    class Counting(K2Score):
+    # the wrapped scorer has a graph-dependent structure prior (BDs), so network-level caching is observable too
+    class Counting(BDsScore):
         calls = 0
 
         def local_score(self, v, p):
             Counting.calls += 1
             return super().local_score(v, p)
     base = Counting(df)
-    truth = {k: float(K2Score(df).local_score(k[0], list(k[1]))) for k in KEYS}
+    plain = BDsScore(df)
+    truth = {k: float(plain.local_score(k[0], list(k[1]))) for k in KEYS}
     ms = g["max_size"]
+    dags = []
+    for e in ([], [("P", "X")], [("P", "X"), ("Q", "X"), ("P", "Q")]):
+        d_ = DAG()
+        d_.add_nodes_from(COLS)
+        d_.add_edges_from(e)
+        dags.append((d_, float(plain.score(d_))))
+    # network-score histories: every sequence of <=3 score(model) calls through ONE cache object
+    for hist in [h for k in (1, 2, 3) for h in product(range(3), repeat=k)]:
+        if only is not None:
+            break
+        c = ScoreCache(base, df, max_size=ms)
+        for pos, di in enumerate(hist):
+            got = float(c.score(dags[di][0]))
+            st.evals += 1
+            st.transitions += 1
+            st.compared += 1
+            if abs(got - dags[di][1]) > 1e-9:
+                st.violation("ScoreCache.score", "differs-from-uncached", {"part": "cache", "g": g, "history": ["score"] + list(hist[:pos + 1])}, got, dags[di][1])
+                break
 
     def run(hist):
         Counting.calls = 0
